@@ -140,6 +140,12 @@ func runC14(e *Engine, r *Report) {
 	_ = strings.Contains
 	// deferred close/sync errors reach the caller (generic.go)
 	ruleDeferredErr(e, r, 1, "internal/rsm")
+	// error discipline of the snapshot file writers/readers: a failed block or tail write must
+	// not end in a successful Close (the file would be a well-formed shorter snapshot)
+	est := e.CheckErrDiscipline(r, errScope{pkgs: map[string]bool{}, files: map[string]bool{
+		"internal/rsm/rwv.go": true, "internal/rsm/snapshotio.go": true, "internal/rsm/chunkwriter.go": true, "internal/rsm/files.go": true,
+	}}, c14Accept)
+	r.floor("ERR-calls", est.Calls, 30)
 	// io.Writer implementations on the snapshot path only read what they are given (generic.go)
 	ruleWriterParam(e, r, 3, "internal/rsm", "internal/utils/dio", "internal/transport", "")
 	// ---- the compression type recorded in a snapshot file's header is the
@@ -195,3 +201,6 @@ func runC14(e *Engine, r *Report) {
 	}
 	ruleReaderBoundFromFile(e, r)
 }
+
+// accepted idioms of the snapshot file code, each confirmed by reading the site.
+var c14Accept = map[string]string{}
